@@ -57,6 +57,10 @@ func (ctx *context) nodeToFeature(n *osm.Node) *geojson.Feature {
 
 // c17Mutants6: narrowing conversions beyond the four known ones.
 var c17Mutants6 = []core.Mutant{
+	// one of the four known sites narrowed further: a different violation, not covered by the known finding for int
+	{Name: "g10-known-site-int-to-int32", File: "osmgeojson/convert.go", Nth: 0, ExpectRule: "G10", ExpectConstruct: "id-width@properties[\"id\"] osm.NodeID as int32",
+		Find:    "\tf.Properties[\"id\"] = int(n.ID)\n",
+		Replace: "\tf.Properties[\"id\"] = int32(n.ID)\n"},
 	// the helper adds a property built from the ref narrowed to int32
 	{Name: "r-g10-helper-also-narrows-for-the-id-string", File: "osmgeojson/convert.go", Nth: 0, ExpectRule: "G10", ExpectConstruct: "id-width@properties[\"ref\"] osm.NodeID",
 		Find: `func (ctx *context) nodeToFeature(n *osm.Node) *geojson.Feature {
